@@ -243,14 +243,23 @@ PROPS["C08"] = {
 SUBMIT = [de(f"env_submit_tick{t}_m2", f"one place / cancel / modify submission between steps, tick {t}: live book, cache, histories, waiting instructions untouched; order appears as New iff created; queue grows by exactly that instruction",
              covers=["cover.limit_order_created"] + (["cover.creation_rejected"] if t > 1 else []), tiers=("quick", "thorough") if t in (1, 3, 10) else ("thorough",), timeout=600) for t in range(1, 11)]
 
+MSUBMIT = [de("market_env_submit_place_asset0", "MarketEnv<2>: one place_order on asset 0 between steps: both live books, caches, histories, waiting instruction untouched; New order on the addressed asset only; ids (asset, n)", covers=["cover.order_created_on_the_addressed_asset"], timeout=600, tiers=("thorough",)),
+           de("market_env_submit_place_asset1", "same, asset 1", covers=["cover.order_created_on_the_addressed_asset"], timeout=600),
+           de("market_env_submit_cancel", "MarketEnv<2>: cancel_order on a symbolic asset / id queues exactly that instruction, also when the same one is already waiting", covers=["cover.duplicate_cancel_of_the_same_order"], timeout=600),
+           de("market_env_submit_modify", "MarketEnv<2>: modify_order queues exactly that instruction", covers=[], timeout=600)]
+MLOOP = de("market_env_step_loop_b2", "MarketEnv<2>::step loop, 2 instructions on symbolic assets, arbitrary stale caches", covers=["cover.cross_asset_batch_reordered"], timeout=1500)
+
 PROPS["C10"] = {
     "level": "model_checking", "functions": ["Env::<L>::{place_order,cancel_order,modify_order,level_2_data,step}", "OrderBook::create_order"] + STEP_FUNCS[2:],
     "assumptions": DE_ASSUME, "bounds": "2-entry order table + 1 waiting instruction + 1 prior record, ticks {1,3,10} (1..10 thorough) enumerated, arbitrary arguments incl. off-grid prices and unknown ids",
-    "outside": "tables > 2 entries, LEVELS > 2, MarketEnv submissions (C14 covers MarketEnv::step and the market-level routing)",
+    "outside": "tables > 2 entries (1 per asset in the multi-asset harnesses), LEVELS > 2, more than 2 assets",
     "explanation": "Submission step on an arbitrary environment: a complete observable snapshot (existing orders, trades, every view, clock, flag, counter, cached level-2 data, every recorded series, waiting instructions) is unchanged; exactly one order is appended with status New and the submitted fields iff creation succeeded; the queue grows by exactly the submitted instruction. After a step (idle, one real instruction, 2-3 logged instructions) the cached level-2 snapshot equals the live book's level_2_data() field by field.",
     "stubs": [STUB_LOOP, "std BTreeMap -> verif_map (cfg(kani) only)"],
-    "harnesses": SUBMIT + [STEP_HARNESSES[3], STEP_HARNESSES[4], STEP_HARNESSES[5], STEP_HARNESSES[0]],
+    "harnesses": SUBMIT + MSUBMIT + [STEP_HARNESSES[3], STEP_HARNESSES[4], STEP_HARNESSES[5], STEP_HARNESSES[0], MLOOP],
 }
+
+PROPS["C08"]["harnesses"] = PROPS["C08"]["harnesses"] + [MLOOP, MSUBMIT[2]]
+PROPS["C08"]["stubs"] = PROPS["C08"]["stubs"] + ["Market::process_event -> Market::verif_log_event in market_env_step_loop_* (fixed-size log)"]
 
 PROPS["C11"] = {
     "level": "model_checking", "functions": ["Env::<L>::step", "Level2DataRecords::{new,append_record}", "Env::{get_prices,get_volumes,get_trade_vols,get_level_2_data_history}"] + STEP_FUNCS[3:],
@@ -274,7 +283,7 @@ PROPS["C15"] = {
                   de("c15_zone_lemma", "L3: zone + 1 == r << clz(r) without loss, all r", covers=["cover.small_range"], timeout=300),
                   de("c15_bijection_3", "L4: n = 3, injective + all 6 permutations reachable", timeout=300),
                   de("c15_bijection_4", "L4: n = 4, injective + all 24 permutations reachable", timeout=300),
-                  STEP_HARNESSES[0], STEP_HARNESSES[1], STEP_HARNESSES[2]],
+                  STEP_HARNESSES[0], STEP_HARNESSES[1], STEP_HARNESSES[2], MLOOP],
 }
 
 
@@ -368,7 +377,7 @@ PROPS["C20"] = {
     "level": "model_checking",
     "functions": ["bourse_macros::AgentSet (derive, real expansion compiled by rustc)", "bourse_macros::MarketAgentSet (derive)", "Env::place_order", "MarketEnv::place_order"],
     "assumptions": DE_ASSUME[:1] + DE_ASSUME[3:] + ["struct shapes are ENUMERATED (1, 2, 3, 4, 8 fields, repeated and mixed member types, a member that is itself a derived set, both derives); inputs (environment, generator words) are symbolic"],
-    "bounds": "shapes with 1, 2, 3, 4, 8 fields and one nested shape per derive; one update() call each; ALL generator words",
+    "bounds": "shapes with 1, 2, 3, 4, 8 fields, one nested shape, unsorted field names, one-line declarations without trailing comma, per derive; one update() call each; ALL generator words",
     "outside": "other shapes (5-7 fields, tuple structs, generics, field names that collide with the generated identifiers); the proc-macro itself runs at compile time and is exercised by compiling each shape, not symbolically",
     "explanation": "For each enumerated shape the derived update() makes exactly one submission per member, in declaration order (trader tag k+1 at position k), hands draw k of the shared generator to member k (so the generator is shared, not cloned or reseeded), runs each member's own update, and is interchangeable with the hand-written sequence of calls on a twin environment.",
     "stubs": [],
@@ -376,7 +385,9 @@ PROPS["C20"] = {
                   de("c20_agentset_4_nested", "AgentSet: 4 fields; a member that is itself a derived set", covers=["cover.reached_end"], tests=True, timeout=900, replayable=False),
                   de("c20_agentset_8", "AgentSet: 8 fields of mixed types", covers=["cover.reached_end"], tests=True, timeout=900, replayable=False),
                   de("c20_marketagentset_1_3_nested", "MarketAgentSet: 1, 3 fields, nested", covers=["cover.reached_end"], tests=True, timeout=900, replayable=False),
-                  de("c20_marketagentset_8", "MarketAgentSet: 8 fields", covers=["cover.reached_end"], tests=True, timeout=900, replayable=False)],
+                  de("c20_marketagentset_8", "MarketAgentSet: 8 fields", covers=["cover.reached_end"], tests=True, timeout=900, replayable=False),
+                  de("c20_agentset_names_and_commas", "AgentSet: field names not in alphabetical order; one-line struct without trailing comma; single field", covers=["cover.reached_end"], tests=True, timeout=900, replayable=False),
+                  de("c20_marketagentset_names_and_commas", "MarketAgentSet: same three shapes", covers=["cover.reached_end"], tests=True, timeout=900, replayable=False)],
 }
 
 PROPS["C14"] = {
@@ -404,13 +415,14 @@ PROPS["C18"] = {
                   "bourse::step_sim::StepEnv::{time,ask_vol,best_ask_vol,best_ask_vol_and_orders,bid_vol,best_bid_vol,best_bid_vol_and_orders,trade_vol,bid_ask,order_status}", "bourse::types::{cast_order,cast_trade}", "From<Status> for u8", "From<Side> for bool"],
     "assumptions": PY_ASSUME[1:] + ["pyo3::exceptions::PyValueError::new_err replaced by a path-ending stand-in (reaching pyo3's lazy exception construction is a Kani internal compiler error): the error path of place_order is decided at core level by C12"],
     "bounds": "wrapper over an arbitrary 2-entry core book (10 published levels as in the Python build), one call per harness, full-width arguments",
-    "outside": "CPython <-> Rust argument extraction (OverflowError), the exception OBJECT (ValueError), get_orders / get_trades list building (their element casts are covered), StepEnv.step / place_order (the forwarded Env calls are C08 / C10), seeding (rand_xoshiro's seed_from_u64), JSON interchange with Python (C07's text layer)",
+    "outside": "CPython <-> Rust argument extraction (OverflowError), the exception OBJECT (ValueError), get_orders / get_trades list building (their element casts are covered), what the forwarded Env::step / place_order do (C08 / C10), JSON interchange with Python (C07's text layer)",
     "explanation": "Wrapper object and a bare core object built from the same arbitrary order table: every scalar getter returns the core's value (bid getters from bid data, ask from ask; StepEnv getters from the step snapshot and the core clock / counter), order_status returns the documented code 0..4 for every status, each mutating method (set_time, toggles, cancel, modify, place) leaves the wrapped book equal to a reference driven by the same call with True = bid, and the order / trade tuple casts put the documented field at every position.",
-    "stubs": ["pyo3::exceptions::PyValueError::new_err -> path ends (assume false)"],
+    "stubs": ["pyo3::exceptions::PyValueError::new_err -> path ends (assume false)", "OrderBook::process_event -> logging stand-in in c18_stepenv_step_uses_its_own_generator only"],
     "harnesses": [py("c18_orderbook_getters", "OrderBook getters and status codes == core", covers=["cover.rejected_order", "cover.asymmetric_book"]),
                   py("c18_orderbook_operations_off", "OrderBook.set_time / toggles / cancel / modify / place forward unchanged (trading off)", covers=["cover.bid_placed_through_the_wrapper"]),
                   py("c18_record_casts", "cast_order / cast_trade field positions and encodings", covers=["cover.rejected_ask"]),
-                  py("c18_stepenv_getters", "StepEnv getters and status codes == core / step snapshot", covers=["cover.rejected_order"])],
+                  py("c18_stepenv_getters", "StepEnv getters and status codes == core / step snapshot", covers=["cover.rejected_order"]),
+                  py("c18_stepenv_step_uses_its_own_generator", "StepEnv.place/cancel/modify queue what the core queues; step() drives the core with the object's own generator, whose state carries over between steps (symbolic seed)", covers=[], timeout=900)],
 }
 
 NOT_APPLICABLE = {
